@@ -55,7 +55,7 @@ const LITERALS: [&str; 40] = [
     "0", "-0", "+5", "007", "170141183460469231731687303715884105727", "-170141183460469231731687303715884105728", "18446744073709551616",
 ];
 
-const COMMENTS: [&str; 6] = ["-- c%\n", " /- b% -/ ", "/- o% /- nested -/ x -/", "\n-- own line %\n", " -- tail %\n", "/- m%\n multi\n -/\n"];
+const COMMENTS: [&str; 7] = ["-- c%\n", " /- b% -/ ", "/- o% /- nested -/ x -/", "\n-- own line %\n", " -- tail %\n", "/- m%\n multi\n -/\n", "\n--| text block %\n--| second line\n"];
 
 /// A mutant of a parseable source that should still parse.
 fn mutate(src: &str, rng: &mut Rng, kind: u64, counter: &mut usize) -> String {
@@ -266,6 +266,18 @@ pub fn run(opts: &Opts) -> i32 {
         };
         inputs.push((format!("literal:{k}"), text));
     }
+    // every kind of comment between a `@[format(verbatim)]` annotation and its payload
+    for (k, (p, t)) in corpus.iter().enumerate() {
+        if !(opts.thorough() || k % 8 == 0) {
+            continue;
+        }
+        for c in COMMENTS {
+            counter += 1;
+            let c = c.replace('%', &counter.to_string());
+            inputs.push((format!("verbatimgap:{}", p.display()), format!("@[format(verbatim)]{c}{t}")));
+            inputs.push((format!("verbatimgap:{}", p.display()), format!("@[format(verbatim)]\n{c}{t}")));
+        }
+    }
     // shapes that have gone wrong before, or nearly
     for (k, text) in [
         "exists (X : VType) . (exists (Y : VType) . X * Y)\n", "exists (X : VType) (Y : VType) . X * Y\n", "forall (X : VType) . (forall (Y : VType) . X -> Ret Y)\n",
@@ -379,8 +391,21 @@ pub fn run(opts: &Opts) -> i32 {
                     "ok".into(),
                     if !glued.is_empty() {
                         "glued-line-comment".into()
-                    } else if text.contains("verbatim") {
-                        "verbatim-directive".into()
+                    } else if text.contains("verbatim") && {
+                        // every comment of the input is in the output at least as often, and some more often
+                        let count = |items: &[Item]| {
+                            let mut m: std::collections::HashMap<String, usize> = Default::default();
+                            for it in items {
+                                if let Item::Comment(_, t) = it {
+                                    *m.entry(t.split_whitespace().collect::<Vec<_>>().join(" ")).or_insert(0) += 1;
+                                }
+                            }
+                            m
+                        };
+                        let (ca, cb) = (count(&a), count(&b));
+                        ca.iter().all(|(t, n)| cb.get(t).copied().unwrap_or(0) >= *n) && cb.values().sum::<usize>() > ca.values().sum::<usize>()
+                    } {
+                        "verbatim-duplicates-comment".into()
                     } else {
                         "ok".into()
                     },
